@@ -103,7 +103,7 @@ ADD4 = {
  "C11": "Also: third-party code reachable from Apply/ApplyForReader/ApplyForFile is scanned for goroutines/select (one known finding: the charset guesser of dom.Parse).",
  "C12": "Also: nothing but timing data depends on the clock (shared with C11).",
  "C13": "Also: filter-in-place appends inside log regions count as writes; ApplyForURL parses the supplied string fragment-aware. ApplyForURL copies the caller's options whole.",
- "C14": "Also: the OpenGraph prefix table is written only under the entry of the declared namespace, og:type is known before the type-dependent parsers run, property names match as a whole, and nothing rewrites the document the parsers read.",
+ "C14": "Also: the OpenGraph prefix table is written only under the entry of the declared namespace, og:type is known before the type-dependent parsers run, property names match as a whole, nothing rewrites the document the parsers read, and schema.org types are recognised under the http and the https spelling.",
  "C15": "Also: no markup title for a page that opted out; InnerText changes nothing but whitespace; every block is compared with the potential titles.",
  "C16": "Also: relative hrefs are resolved against the caller's page URL itself, followed through the call graph to FindPagination's parameter.",
  "C19": "Also: a root domain only for http/https URLs; the tested value is the element's own address attribute; ids come from the path of url.Parse; srcdoc is not an allowed attribute. The literal-text round trip (C05-S4) is shared.",
